@@ -49,7 +49,7 @@ def bounds(tier):
   if tier == 'quick':
     return dict(max_po=1, max_pk=2, max_ko=1, vcap=2, rhs_len=3,
                 values=['A', 'B'], probe_values=['X', 'Y', 'Z'])
-  return dict(max_po=2, max_pk=2, max_ko=2, vcap=3, rhs_len=3,
+  return dict(max_po=1, max_pk=2, max_ko=1, vcap=3, rhs_len=3,
               values=['A', 'B'], probe_values=['X', 'Y', 'Z'])
 
 
@@ -633,4 +633,6 @@ LEVEL_TEXT = ('Every reachable reference-model state of every signature in '
 LEVEL_NOTE = ('Trusted: the reference model mc/argmodel.py (CPython list '
               'semantics + dict), the slice de-duplication argument (CPython '
               'slice.indices normal form x raw spelling class), bounds: <=2 '
-              'params of a kind, *args length <= 2/3, two values.')
+              'params of a kind (<=1 positional-only / keyword-only), *args length '
+              '<= 2 (quick; 3 on the smallest prefixes) / 3 (thorough), two '
+              'values.')
